@@ -169,6 +169,40 @@ def r2(ctx):
     ctx.covered("guards of the entry report and early exits before it", len(gs) + exits, distinct_keys=[str(g) for g in gs],
                 sample=gs)
     ctx.floor(allowed, 6, "recognised guards on the path to check_file", VISIT_DIR)
+    # the same for the two descent sites: a directory inside the window is entered under the listed conditions only
+    for c in walk_exprs(hir):
+        if c["k"] == "MCall" and c["m"] in ("push_back", "visit_dir"):
+            gsd = guards_of(hir, c)
+            if not any(t[0] == "match" and "read_dir" in render(t[1]) for t in gsd):
+                continue
+            for t in gsd:
+                if t[0] != "if":
+                    continue
+                for cj in conjuncts(t[1]):
+                    rc = render(peel(cj, methods=False))
+                    okc = rc == "pass_ignores" or ("depth" in rc and "max" in rc) or rc.startswith("let Result::Ok(file_type)") or rc == "ok" or \
+                        rc.startswith("self.ok_to_visit_dir(") or "traversal_mode ==" in rc.replace("(", "") or rc.startswith("(traversal_mode")
+                    ctx.obligation(okc)
+                    if not okc:
+                        ctx.violation("skip/descent-guard/%s" % rc[:50], ctx.where(VISIT_DIR, cj),
+                                      "entering a directory is additionally conditioned on `%s`: sub-trees failing it are silently skipped" % rc)
+    # `ok` (the entry is a directory, or a link leading to one) is decided by the listed tests only
+    for x in walk_exprs(hir):
+        if x["k"] == "Assign" and render(x["l"]) == "ok" and render(x["r"]) == "true":
+            for t in guards_of(hir, x):
+                if t[0] != "if" or any(t is g for g in []):
+                    continue
+                for cj in conjuncts(t[1]):
+                    rc = render(peel(cj, methods=False))
+                    if rc in ("pass_ignores",) or "depth" in rc or rc.startswith("let Result::Ok(file_type)"):
+                        continue
+                    okc = t[2] and (rc == "file_type.is_symlink()" or rc == "file_type.is_dir()" or rc.startswith("let Result::Ok(resolved)") or
+                                     rc.endswith(".is_dir()") or rc == "self.current_follow_symlinks") or \
+                        (not t[2] and rc == "file_type.is_symlink()")
+                    ctx.obligation(bool(okc))
+                    if not okc:
+                        ctx.violation("skip/enterable/%s" % rc[:50], ctx.where(VISIT_DIR, cj),
+                                      "whether an entry can be entered is additionally conditioned on `%s`" % rc)
     # pass_ignores is true when no ignore option is on
     locs = Locals(hir)
     pi = [x for x in walk(hir) if x["k"] == "Let" and x["pat"].get("name") == "pass_ignores"]
